@@ -517,6 +517,7 @@ inductive Op where
   | delBlock (id : PyStr)
   | str
   | dump (keyLen : Nat)
+  | setKbpk (k : Bytes)
 
 inductive Val where
   | unit
@@ -550,5 +551,6 @@ def step (c : Ciphers) (kb : KB) : Op → R Val × KB
     | .ok d => (.ok .unit, { kb with header := { kb.header with blocks := d } })
   | .str => (kb.header.str.map Val.str, kb)
   | .dump n => ((kb.header.dump n).map Val.str, kb)
+  | .setKbpk k => (.ok .unit, { kb with kbpk := k })
 
 end Psec.Tr31
